@@ -132,10 +132,31 @@ def build(prop, targets_extra=()):
             'driver_ok': driver_ok and (rc == 0 or os.path.exists(common.DRIVER)), 'wall': dt}
 
 
+def import_closure(prop):
+    """Lean source files (under lean/) that Props/<prop>.lean depends on, transitively (PyElf.* only)."""
+    seen, todo = set(), ['PyElf.Props.%s' % prop, 'Driver']
+    files = []
+    while todo:
+        m = todo.pop()
+        if m in seen:
+            continue
+        seen.add(m)
+        path = os.path.join(LEAN, *m.split('.')) + '.lean'
+        if not os.path.exists(path):
+            continue
+        files.append(path)
+        for line in open(path):
+            mm = re.match(r'\s*import\s+(PyElf\.\S+)', line)
+            if mm:
+                todo.append(mm.group(1))
+    return files
+
+
 def audit(prop, thms):
-    """#print axioms for every property/tie theorem; forbidden-token grep over all Lean sources."""
+    """#print axioms for every property/tie theorem; forbidden-token grep over the Lean sources this
+    property depends on (its import closure, plus the driver's)."""
     bad_tokens = []
-    for path in glob.glob(os.path.join(LEAN, 'PyElf', '**', '*.lean'), recursive=True) + [os.path.join(LEAN, 'Driver.lean')]:
+    for path in import_closure(prop):
         if os.sep + 'Gen' + os.sep in path:
             continue
         in_block = 0
@@ -171,8 +192,8 @@ def audit(prop, thms):
     os.unlink(path)
     axioms, bad = {}, {}
     cur = None
-    text = out.replace('\n  ', ' ')
-    for m in re.finditer(r"'([^']+)' (does not depend on any axioms|depends on axioms: \[([^\]]*)\])", text):
+    text = out
+    for m in re.finditer(r"'([^']+)' (does not depend on any axioms|depends on axioms:\s*\[([^\]]*)\])", text, re.S):
         name = m.group(1)
         axs = [a.strip() for a in (m.group(3) or '').split(',') if a.strip()]
         axioms[name] = axs
